@@ -176,7 +176,7 @@ def run_thresholder(ctx, rng, ncols, tuples, specials):
     n = len(rows)
     names = ["sa", "sb", "sc"][:ncols]
     table, kind = as_table(rng, rows, ncols, names)
-    constraint, objective, flip, gs = TL.config_schedule(int(rng.integers(0, 10 ** 6)))
+    constraint, objective, flip, gs = TL.config_random(rng)
     part = tuple_partition(rows)
     ctx.mark(["thresholder", ncols, len(part), kind, specials, constraint], len(part) >= 2,
              sample={"rows": [list(r) for r in rows], "labels": y, "scores": s, "constraint": constraint, "container": kind})
